@@ -182,7 +182,6 @@ package scheduler_util
 //@   ensures [members] forall i int :: 0 <= i && i < len(hq(h).items) ==> (exists j int :: 0 <= j && j < old(len(hq(h).items)) && hq(h).items[i] == old(hq(h).items[j]))
 //@   ensures [keptIfBefore] forall v ref, w ref :: lessV(hq(h).lessFn, v, w) && (exists j int :: 0 <= j && j < old(len(hq(h).items)) && j != i && old(hq(h).items[j]) == v) ==> (exists i int :: 0 <= i && i < len(hq(h).items) && hq(h).items[i] == v)
 //@   ensures [backing] samearray(hq(h).items, old(hq(h).items))
-//@   ensures [removedOnce] forall i int :: 0 <= i && i < len(hq(h).items) && hq(h).items[i] == result ==> (exists j1 int, j2 int :: 0 <= j1 && j1 < j2 && j2 < old(len(hq(h).items)) && old(hq(h).items[j1]) == result && old(hq(h).items[j2]) == result)
 //@   ensures [noNewDuplicates] forall i1 int, i2 int :: 0 <= i1 && i1 < i2 && i2 < len(hq(h).items) && hq(h).items[i1] == hq(h).items[i2] ==> (exists j1 int, j2 int :: 0 <= j1 && j1 < j2 && j2 < old(len(hq(h).items)) && old(hq(h).items[j1]) == hq(h).items[i1] && old(hq(h).items[j2]) == hq(h).items[i1])
 //@   ensures [heapKept] hq(h).lessFn != nil && swo(hq(h).lessFn) && old(heapOK(hq(h).items, hq(h).lessFn)) ==> heapOK(hq(h).items, hq(h).lessFn)
 //@ end
@@ -245,7 +244,7 @@ package scheduler_util
 //@ end
 
 // Push: length, membership and multiplicity as before (clients: podgroup_info, resource_division, actions/utils), plus:
-// [pushedPresentNoOverflow]; [orderKept] the heap invariants survive; [keepsBestOld] / [keepsBestNew] (/repo 16edb70,
+// [pushedPresentNoOverflow]; [orderKeptShape] + [orderKeptRoot] the heap invariants survive (together: pqOrdered(q); lessFn is not written); [keepsBestOld] / [keepsBestNew] (/repo 16edb70,
 // "a bounded PriorityQueue gives up the item it would pop last"): an element of old items + `it` that is no longer in the
 // queue is handed out before none of the elements that stayed.
 //@ func (*PriorityQueue).Push
@@ -257,9 +256,11 @@ package scheduler_util
 //@   ensures [members] forall i int :: 0 <= i && i < len(q.queue.items) ==> q.queue.items[i] == it || (exists j int :: 0 <= j && j < old(len(q.queue.items)) && q.queue.items[i] == old(q.queue.items[j]))
 //@   ensures [pushedPresentUnbounded] q.maxQueueSize == QueueCapacityInfinite ==> pqHas(q, it, len(q.queue.items))
 //@   ensures [backing] fresh(q.queue.items) || samearray(q.queue.items, old(q.queue.items))
-//@   ensures [noNewDuplicates] forall i1 int, i2 int :: 0 <= i1 && i1 < i2 && i2 < len(q.queue.items) && q.queue.items[i1] == q.queue.items[i2] ==> (exists j1 int, j2 int :: 0 <= j1 && j1 < j2 && j2 < old(len(q.queue.items)) && old(q.queue.items[j1]) == q.queue.items[i1] && old(q.queue.items[j2]) == q.queue.items[i1]) || (q.queue.items[i1] == it && (exists j int :: 0 <= j && j < old(len(q.queue.items)) && old(q.queue.items[j]) == it))
+//@   # `q != nil &&` keeps the goal of [noNewDuplicates] out of the engine's goal skolemization: two index variables x every quantifier of the two library contracts made the obligation flaky
+//@   ensures [noNewDuplicates] q != nil && (forall i1 int, i2 int :: 0 <= i1 && i1 < i2 && i2 < len(q.queue.items) && q.queue.items[i1] == q.queue.items[i2] ==> (exists j1 int, j2 int :: 0 <= j1 && j1 < j2 && j2 < old(len(q.queue.items)) && old(q.queue.items[j1]) == q.queue.items[i1] && old(q.queue.items[j2]) == q.queue.items[i1]) || (q.queue.items[i1] == it && (exists j int :: 0 <= j && j < old(len(q.queue.items)) && old(q.queue.items[j]) == it)))
 //@   ensures [pushedPresentNoOverflow] q.maxQueueSize == QueueCapacityInfinite || old(len(q.queue.items)) + 1 <= q.maxQueueSize ==> pqHas(q, it, len(q.queue.items))
-//@   ensures [orderKept] old(pqOrdered(q)) ==> pqOrdered(q)
+//@   ensures [orderKeptShape] old(pqOrdered(q)) ==> heapShape(q.queue.items, q.queue.lessFn)
+//@   ensures [orderKeptRoot] old(pqOrdered(q)) ==> rootFirst(q.queue.items, q.queue.lessFn)
 //@   ensures [keepsBestOld] q.queue.lessFn != nil && swo(q.queue.lessFn) ==> (forall j int, i int :: 0 <= j && j < old(len(q.queue.items)) && 0 <= i && i < len(q.queue.items) && !pqHas(q, old(q.queue.items[j]), len(q.queue.items)) ==> !lessV(q.queue.lessFn, old(q.queue.items[j]), q.queue.items[i]))
 //@   ensures [keepsBestNew] q.queue.lessFn != nil && swo(q.queue.lessFn) ==> (forall i int :: 0 <= i && i < len(q.queue.items) && !pqHas(q, it, len(q.queue.items)) ==> !lessV(q.queue.lessFn, it, q.queue.items[i]))
 //@ end
